@@ -465,6 +465,18 @@ class Assembler:
         if 'assumed' in opts:
             return self.do_fn(repo_file, container, name, opts, ann, tline)
         reason = want.get(qual)
+        try:
+            find_fn(repo_file, container, name)
+        except AnchorError as e:
+            # the function is gone (removed or renamed): nothing can be emitted for it.  Its obligations are reported as
+            # undecided; calls to a new helper of a covered file are inlined by R13, anything else surfaces as a
+            # front-end error in the callers
+            obs = {}
+            for (tl, ln) in ann:
+                m = re.search(r'//\s*@ob\s+(\S+)\s+(\S+)\s*$', ln)
+                if m: obs[m.group(2)] = m.group(1).split(',')
+            self.degraded = getattr(self, 'degraded', []) + [{'fn': qual, 'reason': 'function no longer exists under this name: ' + str(e), 'obligations': obs, 'safety': list(opts.get('safety', [])), 'gone': True}]
+            return
         if reason is None:
             snap = (len(self.out), len(self.map), len(self.functions), dict(self.obligations), len(self.fn_ranges), dict(self.rule_counts),
                     list(getattr(self, 'assumed', [])), {k: set(v) for k, v in self.containers_seen.items()}, set(getattr(self, 'inlined', set())))
